@@ -21,6 +21,14 @@ use std::io;
 
 pub(super) use super::_pretty::*;
 
+/// The only characters that Turtle and TriG treat as white space (production `WS`).
+///
+/// NB: `char::is_whitespace` (Unicode) and even `char::is_ascii_whitespace` (form feed)
+/// accept characters that are *not* white space in Turtle.
+pub(super) const fn is_turtle_whitespace(c: char) -> bool {
+    matches!(c, ' ' | '\t' | '\r' | '\n')
+}
+
 /// Turtle serializer configuration.
 #[derive(Clone, Debug)]
 pub struct TurtleConfig {
@@ -98,10 +106,11 @@ impl TurtleConfig {
     /// Transform a [`TurtleConfig`] by setting the [`indentation`][`TurtleConfig::indentation`] flag.
     ///
     /// # Precondition
-    /// `indentation` must only contain ASCII whitespaces, otherwise this method will panic.
+    /// `indentation` must only contain Turtle whitespaces
+    /// (space, tab, carriage return, line feed), otherwise this method will panic.
     pub fn with_indentation<T: ToString>(mut self, indentation: T) -> Self {
         let indentation = indentation.to_string();
-        assert!(indentation.chars().all(char::is_whitespace));
+        assert!(indentation.chars().all(is_turtle_whitespace));
         self.indentation = indentation;
         self
     }
